@@ -268,6 +268,11 @@ def run_history(ctx, world, hist, tofu=True, label="exhaustive"):
                 outcomes.append("swapped")
                 continue
             failing = None
+            in_context = False
+            if kind == "getctx":
+                # the call is made inside `async with client:`; leaving the block must not weaken later calls
+                in_context = True
+                kind = "get"
             if kind == "getfail":
                 # first contact (or any contact) whose exchange fails *after* the TLS handshake
                 failing = op[2]
@@ -306,6 +311,9 @@ def run_history(ctx, world, hist, tofu=True, label="exhaustive"):
                 async def go():
                     if kind == "upload":
                         return await client.upload(url, b"payload", mime_type="text/plain", token="secret-token")
+                    if in_context:
+                        async with client:
+                            return await client.get(url)
                     return await client.get(url)
 
                 try:
@@ -450,7 +458,7 @@ ALPHABET = [
 EXTRA = [("get", "t4"), ("upload", "t3"), ("swap", "A", "ed"), ("swap", "A", "rsa"), ("swap", "B", "tver"), ("swap", "A", "ec1"), ("swap", "B", "ec1"), ("clear",),
          ("redirect", "t3", "t4"), ("upload", "t2"), ("import", "t1", "ec2"), ("revoke", "t3"), ("trust", "t3"),
          ("import-bad", "t1", "ec2", "merge"), ("import-bad", "t3", "rsa", "replace"),
-         ("restore", "merge"), ("import", "t1", "ec1", "replace"), ("import", "t2", "rsa", "replace"),
+         ("getctx", "t1"), ("getctx", "t3"), ("restore", "merge"), ("import", "t1", "ec1", "replace"), ("import", "t2", "rsa", "replace"),
          ("getfail", "t1", "garbage-header"), ("getfail", "t3", "unknown-charset"), ("getfail", "t2", "reset-mid-body"), ("getfail", "t3", "close-before-header")]
 
 
@@ -465,7 +473,7 @@ def run_l3(ctx):
             if not ctx.mine(k):
                 continue
             # skip histories without any network call
-            if not any(o[0] in ("get", "upload", "redirect", "getfail") for o in hist):
+            if not any(o[0] in ("get", "upload", "redirect", "getfail", "getctx") for o in hist):
                 continue
             if ctx.quick() and (k // ctx.nshards) % 5:
                 continue
